@@ -582,7 +582,8 @@ META = {
     "text": "static typestate and forwarding rules: decides, for every path of the code, that no Cluster can reach "
             "the caller with a cache built for an older index set, and that the shortcut evaluates the same atoms "
             "with the same threshold and radii as the direct call. These are necessary conditions of the property "
-            "and the two ways it failed on the pinned tree; numerical equality of the two evaluations is not decided.",
+            "and the two ways it failed on the pinned tree; numerical equality of the two evaluations is not decided."
+            " Also: atoms, cached sub-matrix and radii are taken in one atom order, the sub-matrix is cut from the radii-corrected field, bond threshold and radii of every Cluster originate (followed up the call graph) from the same-named get_clusters parameter, and the distance record is this call's (nothing carried between calls on one SBC object).",
     "note": "trusted: CPython ast; the repository model's receiver typing (flow-insensitive, repo classes only); "
             "caches are recognised by the `if self.X is None: self.X = ...` idiom.",
     "technique": "typestate (cache coherence) + def-use forwarding + sibling agreement over the resolved program",
